@@ -296,6 +296,13 @@ def run_hex(W, cfg):
         W.ob_true('equal area up to edge sampling (spread below half the perimeter in samples)', float(area.max() - area.min()) <= 3 * R)
         W.ob_true('segments do not overlap (non-antialiased, this geometry)', bool((flat <= 1).all()))
         W.ob_true('clear of the array border', bool(flat[0].sum() == 0 and flat[-1].sum() == 0 and flat[:, 0].sum() == 0 and flat[:, -1].sum() == 0))
+        # the zero border of `pad` samples on every side, also for antialiased (soft-edged) segments and other pad values
+        for pad_, aa_ in ((2, True), (3, True), (3, False), (5, True)):
+            mp = W.concrete(lt.hex_segments(rings, R, g, rotate=rot, antialias=aa_, drop=tuple(cfg['drop']), pad=pad_))
+            fl_ = mp.sum(axis=0)
+            k_ = pad_ - 1
+            W.ob_true(f'pad={pad_}, antialias={aa_}: the outermost {k_} rows and columns of the aperture are exactly zero',
+                      bool(fl_[:k_].sum() == 0 and fl_[-k_:].sum() == 0 and fl_[:, :k_].sum() == 0 and fl_[:, -k_:].sum() == 0))
         f2 = lt.hex_segments(rings, R, g, rotate=rot, antialias=False, drop=tuple(cfg['drop']), pad=2, flatten=True)
         W.ob_true('flatten = sum of the segments', bool((W.concrete(f2) == flat).all()))
         return
